@@ -1,2 +1,37 @@
-(* props/C20.v — placeholder until the theorems of this property are added. *)
-From Prophy Require Import Bytes Schema Layout Wire PcModel.
+(* props/C20.v — prophyc output is a deterministic function of its inputs.
+   Determinism under hash seeds, working directories and repeated runs is a matter of the interpreter and is
+   decided by running prophyc (checks/C20.py). What is logic — the one piece of state shared between the
+   input files of a run, the file processor's table of processed files — is modelled (model/PcFiles.v) and
+   proved harmless: the result computed for an input file is the include tree of that file, a function of the
+   files' contents ([Flat] is functional), whatever files were processed before it, in whatever order, with
+   whatever fuel. Hence two runs that list independent input files in different orders compute the same
+   model for each file, and compiling one file does not change what is computed for another. *)
+From Coq Require Import List Bool Arith.
+From Prophy Require Import PcFiles PcFilesFacts.
+Import ListNotations.
+
+Theorem C20_include_tree_is_a_function_of_the_files :
+  forall fs p a b, Flat fs p a -> Flat fs p b -> a = b.
+Proof. exact Flat_fun. Qed.
+Print Assumptions C20_include_tree_is_a_function_of_the_files.
+
+Theorem C20_result_independent_of_what_was_processed_before :
+  forall fs fuel1 fuel2 ps1 ps2 st1 st2 rs1 rs2 i j p r1 r2,
+    proc_mains fs fuel1 st0 ps1 = (st1, rs1) -> proc_mains fs fuel2 st0 ps2 = (st2, rs2) ->
+    nth_error ps1 i = Some p -> nth_error ps2 j = Some p ->
+    nth_error rs1 i = Some (FOk r1) -> nth_error rs2 j = Some (FOk r2) -> r1 = r2.
+Proof.
+  intros fs fuel1 fuel2 ps1 ps2 st1 st2 rs1 rs2 i j p r1 r2 H1 H2 P1 P2 R1 R2.
+  apply (Flat_fun fs p).
+  - exact (proc_mains_sound fs fuel1 ps1 st0 st1 rs1 (MemoOk_nil fs) H1 i p r1 P1 R1).
+  - exact (proc_mains_sound fs fuel2 ps2 st0 st2 rs2 (MemoOk_nil fs) H2 j p r2 P2 R2).
+Qed.
+Print Assumptions C20_result_independent_of_what_was_processed_before.
+
+Example C20_example :
+  let fs := fun p => match p with
+                     | 0 => Some [IInc 2; IDef 10] | 1 => Some [IDef 11; IInc 2] | 2 => Some [IDef 12]
+                     | _ => None end in
+  snd (proc_mains fs 8 st0 [0; 1]) = [FOk [NInc 2 [NDef 12]; NDef 10]; FOk [NDef 11; NInc 2 [NDef 12]]] /\
+  snd (proc_mains fs 8 st0 [1; 0]) = [FOk [NDef 11; NInc 2 [NDef 12]]; FOk [NInc 2 [NDef 12]; NDef 10]].
+Proof. vm_compute. split; reflexivity. Qed.
